@@ -85,7 +85,12 @@ func C18(c *fw.Ctx) {
 			}
 			// a regex-heavy project in every batch: the lazily generated example is the classic shared state
 			cj.Projects[0] = proto.ConcProject{Name: "regex.jst", Content: []byte("JSIGHT 0.3\nTYPE @r regex\n  /[a-z]{3}-\\d+/\nTYPE @o\n  {\"id\": @r}\nGET /a\n  200 @r\n  201 regex\n    /x+y/\n  202 @o\n")}
-			emit(&proto.Job{ID: fmt.Sprintf("conc/batch-%d", b), Conc: cj})
+			// every other batch is a cold start: a fresh process whose first use of the library is concurrent
+			j := &proto.Job{ID: fmt.Sprintf("conc/batch-%d", b), Conc: cj}
+			if b%2 == 1 {
+				cj.ColdStart, j.Fresh = true, true
+			}
+			emit(j)
 		}
 	}, func(j *proto.Job, res *proto.Result) {
 		if workerProblem(c, res) {
@@ -106,6 +111,9 @@ func C18(c *fw.Ctx) {
 		}
 		c.Count(strings.Join(names, ",")+fmt.Sprint(j.Conc.Seed), cr.Builds >= 8)
 		c.Inc("observed", "concurrent_builds", cr.Builds)
+		if j.Conc.ColdStart {
+			c.Inc("observed", "cold_start_batches", 1)
+		}
 		c.Inc("observed", "concurrent_serialisations", cr.Sers)
 		c.Inc("observed", "result_comparisons", cr.Comparisons)
 		c.Inc("observed", "yield_points_hit", cr.Yields)
